@@ -4,6 +4,7 @@ import Mochi.Driver.Topics
 import Mochi.Driver.Keepalive
 import Mochi.Driver.Ledger
 import Mochi.Driver.BufPool
+import Mochi.Driver.WsConn
 open Mochi.Driver
 
 structure DState where
@@ -23,7 +24,7 @@ def answer (st : DState) (line : String) : DState × String :=
   match ws with
   | ["reset"] => ({}, "-\tok\t-")
   | _ =>
-    match (varintOp impl ws <|> keepaliveOp impl ws) with
+    match (varintOp impl ws <|> keepaliveOp impl ws <|> wsOp impl ws) with
     | some r => (st, fmt r)
     | none =>
       match topicsOp st.topics impl ws with
